@@ -29,7 +29,7 @@
 #include ALG_H
 
 struct in_s {
-	uint8_t ctx_raw[sizeof(a_ctx_t)];
+	a_ctx_t ctx0;				/* arbitrary context */
 	a_word_t st[A_STW];
 	uint64_t q_lo, q_hi;			/* n = (q_hi:q_lo) * B + R */
 	uint8_t tail[RMAX + 1];
@@ -46,7 +46,8 @@ static uint8_t padded[2 * A_BLK];
 
 void harness(void) {
 	V_BEGIN();
-	a_ctx_t *ctx = (a_ctx_t *)v_alloc(sizeof(a_ctx_t));
+	a_ctx_t ctx_obj;
+	a_ctx_t *ctx = &ctx_obj;
 	uint8_t *chunk = v_buf(IN.chunk, L);
 	uint8_t *digest = (uint8_t *)v_alloc(A_DIG);
 	uint8_t want[A_STW * sizeof(a_word_t)];
@@ -77,7 +78,7 @@ void harness(void) {
 	V_ASSUME(n_lo <= A_MAXN_LO && m_lo <= A_MAXN_LO && m_lo >= n_lo);
 #endif
 
-	memcpy(ctx, IN.ctx_raw, sizeof(a_ctx_t));
+	ctx_obj = IN.ctx0;
 	memcpy(a_state(ctx), IN.st, sizeof(IN.st));
 	a_step_prepare(ctx, n_lo, n_hi);		/* count fields, SHA-2 sizes */
 	for (size_t i = 0; i < RMAX; i++)
